@@ -14,7 +14,8 @@ from ..world import World
 
 CUR = {'EUR': F(1, 100), 'USD': F(1, 100), 'JPY': F(1), 'TND': F(1, 1000)}
 RATE_VALS = [F(1), F(11, 10), F(1, 3), F(150), F(164146, 100000000),
-             F(999999, 1000000), F(8481300, 1000000), F(2, 7),
+             F(999999, 1000000), F(151234567, 1000000),
+             F(12345678901, 1000000), F(8481300, 1000000), F(2, 7),
              F(1000001, 1000000), F(5, 1000)]
 AMTS = [F(0), F(1, 100), F(1), F(527, 100), F(-1250, 100), F(10 ** 9),
         F(1, 3), F(999, 1000), F(-7, 1000), F(123456789, 1000)]
@@ -191,8 +192,26 @@ def run_compound(w, psym, a, uc, tc, v, form, st=None):
 def rates_for(tier):
     pairs = [('EUR', 'USD'), ('USD', 'EUR'), ('EUR', 'JPY'), ('JPY', 'EUR'),
              ('USD', 'TND'), ('TND', 'JPY')]
-    vals = RATE_VALS if tier == 'thorough' else RATE_VALS[:7]
+    vals = RATE_VALS if tier == 'thorough' else RATE_VALS[:8]
     return [(a, b, str(v)) for a, b in pairs for v in vals]
+
+
+def near_tie_amounts(factor, src_q, dst_q):
+    """Amounts n*src_q whose product with `factor`, measured in target quanta,
+    is an exact tie (k + 1/2) or as close to a tie as the grids allow -- the
+    inputs on which a second rounding or a pre-rounded rate shows."""
+    ratio = F(factor) * F(src_q) / F(dst_q)
+    P, Q = ratio.numerator, ratio.denominator
+    if Q == 1:
+        return []
+    inv = pow(P, -1, Q)
+    out = []
+    for delta in (0, 1, -1, 2, -2):
+        n = (((Q // 2) + delta) % Q) * inv % Q
+        if n:
+            out.append(n * F(src_q))
+            out.append(-n * F(src_q))
+    return out
 
 
 def part_money(p, rates):
@@ -210,6 +229,24 @@ def part_money(p, rates):
                                           st):
                     st.violation(sig, msg, {'money': [c, str(a), uc, tc, v,
                                                       form, mode]})
+    # amounts at and next to the ties of each matching (rate, operation)
+    for uc, tc, v in rates:
+        rv = O.fr(mk_rate(uc, tc, v).rate)
+        for form in ('m*r', 'm/r'):
+            if form == 'm*r' and c == uc:
+                amts = near_tie_amounts(rv, CUR[c], CUR[tc])
+            elif form == 'm/r' and c == tc:
+                amts = near_tie_amounts(1 / rv, CUR[c], CUR[uc])
+            else:
+                continue
+            for a in amts:
+                st.paths += 1
+                st.state((c, a, uc, tc, v, form), nontrivial=True)
+                st.outcomes['near-tie'] += 1
+                for sig, msg in run_money(c, str(a), uc, tc, v, form, mode,
+                                          st):
+                    st.violation(sig + ':near-tie', msg, {
+                        'money': [c, str(a), uc, tc, v, form, mode]})
     return st
 
 
@@ -274,7 +311,9 @@ def run(tier, seed):
     return total, dict(
         rule=f"4 currencies x 10 amounts x {len(rates)} rates (6 currency "
              f"pairs x values) x {{m*r, r*m, m/r}} x {len(modes)} default "
-             "modes; compound: Money/Mass with each of the 16 subsets of "
+             "modes, plus for every matching (rate, operation) the amounts "
+             "whose exact result is a tie or nearest to a tie in target "
+             "quanta (solved by modular inverse, both signs); compound: Money/Mass with each of the 16 subsets of "
              "{EUR,USD}x{kg,g} units declared, Money/Length and "
              "Money/Duration^2 with 5 subsets, x 3 amounts x rates x "
              "{p*r, r*p, p/r}, plus non-money quantities. non-trivial = "
